@@ -11,7 +11,13 @@ class ConcreteProvider:
     symbolic = False
     np = np
 
-    def __init__(self, inputs=None, seed=0, record_values=False, tight=False):
+    # doubles whose decimal text / magnitude is unusual (exponent forms, integral values, extremes): drawn in the
+    # "special" witness-search runs, because how a double is PRINTED is behind the C boundary of the symbolic model
+    SPECIALS = [0.0, 1.0, -1.0, 2.0, 10.0, 100.0, 500.0, 1e5, 123456789.0, 1e15, 1e16, 1e20, 2.5e20, -1e20, 1e22, 1e30, 1e100, 1e300,
+                1e-5, 1e-7, 1e-10, 1e-20, 1e-300, 5e-324, 0.1, 1.0 / 3.0, 2.0 ** 53, 2.0 ** 53 + 2.0, 1.5, 0.5, 1e10]
+
+    def __init__(self, inputs=None, seed=0, record_values=False, tight=False, special=False):
+        self.special = special
         self.tight = tight
         self.given = dict(inputs or {})
         self.inputs = {}
@@ -41,6 +47,10 @@ class ConcreteProvider:
 
     def real(self, name, lo=None, hi=None, scale=3.0):
         def gen():
+            if self.special and self.rng.random() < 0.4:
+                pool = [x for x in self.SPECIALS if (lo is None or x >= lo) and (hi is None or x <= hi)]
+                if pool:
+                    return self.rng.choice(pool)
             if lo is not None and hi is not None:
                 return self.rng.uniform(lo, hi)
             if lo is not None:
@@ -133,6 +143,14 @@ class ConcreteProvider:
             if not have:
                 a = np.array([[self.rng.gauss(0, 1) for _ in range(n)] for _ in range(n)])
                 spd = a.T @ a + 0.5 * np.eye(n)
+                if self.special and self.rng.random() < 0.6:
+                    # positive definite with lexically special entries: a special diagonal (plus, sometimes, small cross terms)
+                    pos = [x for x in self.SPECIALS if x > 0]
+                    d = [self.rng.choice(pos) for _ in range(n)]
+                    spd = np.diag(d)
+                    if self.rng.random() < 0.3 and n > 1:
+                        c = 0.25 * min(d[0], d[1])
+                        spd[0, 1] = spd[1, 0] = c
                 for i in range(n):
                     for j in range(i, n):
                         self.given.setdefault("%s_%d_%d" % (name, i, j), float(spd[i, j]))
